@@ -12,7 +12,15 @@ CASE_T = "C08.Corr.case"
 PROPS = ["C08/Props.v"]
 CLAUSE = {1: "missing-call", 2: "call-for-unreachable", 3: "called-twice", 4: "event-identity",
           5: "quiet-link-called", 6: "mutation-raised", 7: "call-without-change"}
-FIELD = {0: "value", 1: "f", 2: "g", 3: "kids", 4: "m", 5: "s", 6: "list_items", 7: "dict_items", 8: "set_items"}
+FIELD = {0: "value", 1: "f", 2: "g", 3: "kids", 4: "m", 5: "s", 6: "list_items", 7: "dict_items", 8: "set_items",
+         10: "trait_added", 11: "trait_modified"}
+# FilteredTraitObserver nodes (DESIGN 6 C08: "filters are modelled as a set of matching names supplied by the
+# harness"): the node is presented to the model as one named-trait graph per matching trait of class N
+FILTERS = {"anytrait": [0, 1, 2, 3, 4, 5, 10, 11],   # expression.anytrait(): leaf only (values are of mixed types)
+           "tag": [1, 2],                            # expression.metadata("tag"): f and g carry tag=True
+           "match_fg": [1, 2],                       # expression.match(lambda name, trait: name in ("f", "g"))
+           "match_vk": [0, 3]}                       # expression.match(...) on value and kids: leaf only
+LEAF_FILTERS = ("anytrait", "match_vk")
 DRIVER = "c08_driver.py"
 
 
@@ -31,6 +39,15 @@ def canon(g):
     return [f, bool(notify), bool(optional), cs]
 
 
+def expand(g):
+    """the model's graphs for one implementation graph: filter nodes become one named node per matching
+    name, children in one canonical order (ObserverGraph equality ignores child order), no optional flag"""
+    head, notify, _o, children = g
+    cs = sorted((x for c in children for x in expand(c)), key=lambda c: json.dumps(c))
+    names = FILTERS[head] if isinstance(head, str) else [head]
+    return [[f, bool(notify), cs] for f in names]
+
+
 def canon_nopt(g):
     """canonical form without the optional flags (the model's graphs do not carry them: on the typed heaps
     used here every named trait / container exists, so the flag has no effect on behaviour)"""
@@ -38,17 +55,24 @@ def canon_nopt(g):
     return [f, bool(notify), sorted((canon_nopt(c) for c in children), key=lambda c: json.dumps(c))]
 
 
-def gterm(g, top=True):
-    if top:
-        g = canon_nopt(g)
-    f, notify, children = g
-    return C("G", Nat(f), bool(notify), [gterm(c, False) for c in children])
+def mterm(m):
+    f, notify, children = m
+    return C("G", Nat(f), bool(notify), [mterm(c) for c in children])
+
+
+def gterm(g):
+    ms = expand(g)
+    assert len(ms) == 1
+    return mterm(ms[0])
 
 
 def op_term(op):
     k = op[0]
     if k in ("Observe", "Unobserve"):
-        return C(k, Nat(op[1]), Nat(op[2]), gterm(op[3]))
+        ms = expand(op[3])
+        if len(ms) == 1:
+            return C(k, Nat(op[1]), Nat(op[2]), mterm(ms[0]))
+        return C(k + "All", Nat(op[1]), Nat(op[2]), [mterm(m) for m in ms])
     if k == "SetRef":
         return C("SetRef", Nat(op[1]), Nat(op[2]), [] if op[3] is None else [Nat(op[3])])
     if k == "SetCont":
@@ -117,7 +141,7 @@ def key_fn(case, obs, step, clause):
 
 def show_graph(g):
     f, notify, optional, ch = g
-    s = FIELD[f] + ("" if notify else "(quiet)")
+    s = (f if isinstance(f, str) else FIELD[f]) + ("" if notify else "(quiet)")
     if ch:
         s += (".%s" % show_graph(ch[0])) if len(ch) == 1 else ".[%s]" % " | ".join(show_graph(c) for c in ch)
     return s
@@ -190,13 +214,19 @@ def gen_graph(rnd, depth, ctx=None):
     notify = rnd.random() < 0.72
     optional = rnd.random() < 0.3
     if depth <= 1:
+        if rnd.random() < 0.12:
+            return [rnd.choice(list(FILTERS)), notify, False, []]
         f = rnd.choice([0, 0, 0, 1, 3, 4, 5])
         if f in (3, 4, 5) and rnd.random() < 0.6:
             return [f, notify, optional, [[f + 3, rnd.random() < 0.8, rnd.random() < 0.3, []]]]
         return [f, notify, optional, []]
+    if rnd.random() < 0.08:
+        return [rnd.choice(LEAF_FILTERS), notify, False, []]
     f = rnd.choice([1, 1, 2, 3, 3, 4, 5, 0])
     if f == 0:
         return [0, notify, optional, []]
+    if f in (1, 2) and rnd.random() < 0.3:
+        f = rnd.choice(["tag", "match_fg"])
 
     def subs():
         n = rnd.choice([1, 1, 1, 2, 2, 3])
@@ -206,7 +236,7 @@ def gen_graph(rnd, depth, ctx=None):
             if all(canon_nopt(c) != canon_nopt(d) for d in out):
                 out.append(c)
         return out
-    if f in (1, 2):
+    if f in (1, 2, "tag", "match_fg"):
         return [f, notify, optional, subs()]
     inner = [f + 3, rnd.random() < 0.75, rnd.random() < 0.3, subs() if rnd.random() < 0.85 else []]
     return [f, notify, optional, [inner]]
@@ -239,9 +269,11 @@ NAMED = ["value", "f.value", "f:value", "f.f.value", "f.g.value", "kids.items.va
          "f.f.f.value", "kids.items.kids.items.value", "f:kids.items:value", "m:items.f.value", "s.items.kids.items"]
 
 
-def gen_case(rnd, ctx, maxmut):
-    npool = rnd.choice([3, 4, 4, 5])
+def gen_case(rnd, ctx, maxmut, cyclic=False):
+    npool = rnd.choice([3, 4, 4, 5]) if not cyclic else rnd.choice([2, 2, 3])
     sh = Shadow(npool)
+    if cyclic:
+        sh.reaches = lambda a, b: False          # search mode for F14 triggers: cycles allowed
     ops = []
     regs = []
 
@@ -425,6 +457,46 @@ def gen_case(rnd, ctx, maxmut):
                 del cur[:]
         return ["Cop", c, kind, meth, args, sp]
 
+    def build_path(g, x, budget):
+        """mutations that make the heap follow graph g from object x (so that handlers get called)"""
+        if budget[0] <= 0:
+            return
+        head, _n, _o, children = g
+        names = FILTERS[head] if isinstance(head, str) else [head]
+        for f in names:
+            if f in (1, 2):
+                v = sh.ref[(x, f)]
+                if v is None:
+                    cand = [y for y in range(npool) if not sh.reaches(y, x)]
+                    if not cand:
+                        continue
+                    v = rnd.choice(cand)
+                    sh.ref[(x, f)] = v
+                    add(["SetRef", x, f, v])
+                    budget[0] -= 1
+                for c in children:
+                    build_path(c, v, budget)
+            elif f in (3, 4, 5):
+                c_id = sh.cont[(x, f)]
+                if c_id is None or not sh.items[c_id]:
+                    cand = [y for y in range(npool) if not sh.reaches(y, x)]
+                    if not cand:
+                        continue
+                    vs = [rnd.choice(cand) for _ in range(rnd.randint(1, 2))]
+                    if f == 5:
+                        vs = sorted(set(vs))
+                    items = [[key, v] for key, v in zip(["a", "b"], vs)] if f == 4 else vs
+                    de = False
+                    sh.new_cont(x, f, [list(a) for a in items] if f == 4 else list(items))
+                    add(["SetCont", x, f, items, de])
+                    budget[0] -= 1
+                    c_id = sh.cont[(x, f)]
+                for inner in children:
+                    if isinstance(inner[0], int) and inner[0] == f + 3:
+                        for y in sh.values(c_id)[:2]:
+                            for c in inner[3]:
+                                build_path(c, y, budget)
+
     def observe():
         k = rnd.choice([0, 0, 1])
         r = rnd.choice([0, 0, 0, 1, 2])
@@ -440,8 +512,18 @@ def gen_case(rnd, ctx, maxmut):
         else:
             g = gen_graph(rnd, rnd.choice([1, 2, 2, 3, 3, 4]))
             ctx.count("expr:random-depth")
+            txt = json.dumps(g)
+            for name in FILTERS:
+                if '"%s"' % name in txt:
+                    ctx.count("expr:filter-" + name)
+            if isinstance(g[0], str):
+                ctx.count("expr:filter-at-root")
+        if rnd.random() < 0.7:
+            build_path(g, r, [rnd.randint(1, 5)])
         regs.append((k, r, g))
         add(["Observe", k, r, g])
+        if rnd.random() < 0.3:
+            build_path(g, r, [rnd.randint(1, 3)])
 
     def probes():
         for o in range(npool):
@@ -475,7 +557,7 @@ def gen_case(rnd, ctx, maxmut):
             probes()
     ctx.count("pool:%d" % npool)
     ctx.count("history-length:%03d" % (10 * (len(ops) // 10)))
-    return dict(npool=npool, shape="acyclic", ops=ops)
+    return dict(npool=npool, shape="cyclic" if cyclic else "acyclic", ops=ops)
 
 
 def probes_for(n):
@@ -506,6 +588,12 @@ def corpus():
     ffv = parse_named("f.f.value")
     cs.append(dict(npool=2, shape="cyclic", name="f14-cycle-through-root", ops=[
         ["SetRef", 0, 1, 0], ["Observe", 0, 0, ffv], ["SetRef", 0, 1, 1], ["SetRef", 1, 1, 0]] + probes_for(2)))
+    # F14, second form: a list that comes to contain its own owner; the mutation raises NotifierNotFound
+    kikiv = parse_named("kids.items.kids.items.value")
+    cs.append(dict(npool=2, shape="cyclic", name="f14-list-contains-owner", ops=[
+        ["SetCont", 0, 3, [], True], ["SetCont", 1, 3, [], True], ["Observe", 0, 0, kikiv],
+        ["Cop", 2, 6, "append", [1], [0, 0, [1]]], ["Cop", 2, 6, "setitem", [0, 0], [0, 1, [0]]]] + probes_for(2) + [
+        ["Cop", 2, 6, "append", [1], [1, 0, [1]]]] + probes_for(2)))
     return cs
 
 
@@ -546,11 +634,16 @@ def run(ctx):
                        "heaps are acyclic, the F14 triggers are fixed corpus cases; non-trivial = some handler call "
                        "observed; distinct = distinct operation list")
     rnd = random.Random(ctx.seed)
-    n, maxmut = (500, 8) if ctx.tier == "quick" else (12000, 14)
+    n, maxmut = (500, 8) if ctx.tier == "quick" else (9000, 14)
     if ctx.replay:
         cases = [json.load(open(ctx.replay))["replay"]["case"]]
     else:
         cases = corpus() + [gen_case(rnd, ctx, maxmut) for _ in range(n)]
+        import os
+        for i in range(int(os.environ.get("VERIF_C08_CYCLE_SEARCH", "0"))):   # development aid: look for F14 triggers
+            c = gen_case(rnd, ctx, 5, cyclic=True)
+            c["name"] = "search%d" % i
+            cases.append(c)
     for c in cases[:2] + cases[-2:]:
         ctx.sample(c)
     hist.run(ctx, DRIVER, cases, to_term, HEADER, CASE_T, key_fn, describe, nontrivial,
